@@ -784,7 +784,7 @@ def c18(tier):
     S = scen.Script()
     peakf = [0x10006, 0x10007, 0x130006, 0x20006, 0x20007, 0x180006, 0x180007, 0x220006]
     ints = [0x10002, 0x10003, 0x10004, 0x10005, 0x20001, 0x20003, 0x180004, 0x30002, 0xb0003, 0x40004, 0x70002, 0xe0004,
-            0x180070, 0x180071, 0x180072, 0x180073, 0x50004, 0x20040, 0x20041, 0x20042, 0x110002]      # + ALAC, PAF-24, DWVW, SDS
+            0x180070, 0x180071, 0x180072, 0x180073, 0x50004, 0x20040, 0x20041, 0x20042, 0x110001, 0x110002, 0x110003]      # + ALAC, PAF-24, DWVW, SDS
     other = [0x30006, 0x40007, 0xb0006, 0xc0006, 0xd0007, 0xa0006]          # float encodings without a PEAK chunk: CALC only
     layouts = ["first", "last", "boundary", "ties", "zero"]
     chans = (1, 2) if tier == "quick" else (1, 2, 5)
